@@ -175,10 +175,11 @@ def percentages(ctx: Ctx):
     e = expand(ctx.repo, st, "table_proportions", stop=lambda m: True)
     ctx.check_expr("public-wiring", "cubepart.py::_Strand.table_proportions", e, "self._assemble_vector(self._measures.table_proportions.blocks)")
     for o in ("rows", "columns"):
-        e = expand(ctx.repo, sl, f"{o}_margin_proportion", stop=lambda m: True)
-        leaves = [u(l) for _g, l in strip_ifexp_paths(e)]
+        from .common import marginal_leaves
+
         want = f"self._assemble_marginal(self._measures.{o}_table_proportion)"
-        ctx.ob("public-wiring", f"cubepart.py::_Slice.{o}_margin_proportion", leaves[-1], want, want in leaves)
+        leaves, verdict = marginal_leaves(ctx, sl, f"{o}_margin_proportion", want)
+        ctx.ob("public-wiring", f"cubepart.py::_Slice.{o}_margin_proportion", leaves[-1] if leaves else "no path", want, verdict)
 
 
 _SUBSET = {("keep", "keep"), ("keep", "sum"), ("fix", "fix"), ("fix", "sum"), ("sum", "sum")}
